@@ -147,6 +147,164 @@ Example C06_concrete :
     [31; 61; 91] [10; 20; 30] = 0.
 Proof. vm_compute. reflexivity. Qed.
 
+(* ---- task dispatch with jobs that may FAIL (repo commit 32238ed) ----
+   [fails t] = the job raises on task t; the worker ships the exception ([Err t]), the root
+   remembers the first one, stops yielding and handing out tasks, answers every later result
+   with the sentinel, and after the closing broadcast of the error flag every rank raises it.
+   For every task list, number of workers n, rank set `allowed`, predicate `fails`, send mode
+   md and schedule (= every path of [estep]).  [wcatch = true]: the worker of 32238ed,
+   [wcatch = false]: the pinned worker (the exception escapes). *)
+
+(* the extended executable step used to replay communication logs is exactly the relation *)
+Theorem C06_estep_with_sound :
+  forall (T R : Type) (f : T -> R) fails allowed wcatch md c (s s' : est T R),
+  estep_with f fails allowed wcatch md c s = Some s' -> estep f fails allowed wcatch md s s'.
+Proof. exact @estep_with_sound. Qed.
+Print Assumptions C06_estep_with_sound.
+
+Theorem C06_estep_with_complete :
+  forall (T R : Type) (f : T -> R) fails allowed wcatch md (s s' : est T R),
+  estep f fails allowed wcatch md s s' -> exists c, estep_with f fails allowed wcatch md c s = Some s'.
+Proof. exact @estep_with_complete. Qed.
+Print Assumptions C06_estep_with_complete.
+
+(* the error-free protocol is the special case fails = (fun _ => false): on embedded states
+   and choices the extended step IS the step of the model above (root fallback on) *)
+Theorem C06_estep_with_embed :
+  forall (T R : Type) (f : T -> R) allowed wcatch md c (s : st T R),
+  estep_with f (fun _ => false) allowed wcatch md (lift c) (embed s)
+  = option_map embed (step_with f allowed true md c s).
+Proof. exact @estep_with_embed. Qed.
+Print Assumptions C06_estep_with_embed.
+
+(* (a) termination: every step decreases the measure, from ANY state, both workers *)
+Theorem C06_edispatch_terminates :
+  forall (T R : Type) (f : T -> R) fails allowed md wcatch k (s s' : est T R),
+  esteps f fails allowed wcatch md k s s' -> k + emu s' <= emu s.
+Proof. exact @edispatch_terminates. Qed.
+Print Assumptions C06_edispatch_terminates.
+
+(* (a) no deadlock, whatever fails: every reachable state before the end can step ... *)
+Theorem C06_edispatch_progress :
+  forall (T R : Type) (f : T -> R) fails allowed md tasks n (s : est T R),
+  ereach f fails allowed true md (einit tasks n) s -> epc s <> RDone ->
+  exists s', estep f fails allowed true md s s'.
+Proof. exact @edispatch_progress. Qed.
+Print Assumptions C06_edispatch_progress.
+
+(* ... hence every partial run can be completed: all ranks leave the closing broadcast *)
+Theorem C06_edispatch_reaches_done :
+  forall (T R : Type) (f : T -> R) fails allowed md tasks n (s : est T R),
+  ereach f fails allowed true md (einit tasks n) s ->
+  exists s', ereach f fails allowed true md s s' /\ epc s' = RDone.
+Proof. exact @edispatch_reaches_done. Qed.
+Print Assumptions C06_edispatch_reaches_done.
+
+(* once the root has received an error: no yield, no task handed out, the error is kept *)
+Theorem C06_error_freezes_root :
+  forall (T R : Type) (f : T -> R) fails allowed md wcatch (s s' : est T R) e,
+  estep f fails allowed wcatch md s s' -> eerr s = Some e ->
+  eerr s' = Some e /\ epend s' = epend s /\ egot s' = egot s.
+Proof. exact @eerr_frozen. Qed.
+Print Assumptions C06_error_freezes_root.
+
+(* (b) at the end every worker has received exactly one sentinel, holds no message, is out of
+   its loop *)
+Theorem C06_edispatch_workers_end :
+  forall (T R : Type) (f : T -> R) fails allowed md tasks n (s : est T R),
+  ereach f fails allowed true md (einit tasks n) s -> epc s = RDone ->
+  length (ews s) = n /\ Forall (fun w => w = mkEW [] [] true 1) (ews s).
+Proof. exact @edispatch_workers_end. Qed.
+Print Assumptions C06_edispatch_workers_end.
+
+(* (c) every task is executed at most once; the tasks handed out - all but the suffix still
+   pending when the first error arrived - exactly once *)
+Theorem C06_edispatch_at_most_once :
+  forall (T R : Type) (f : T -> R) fails allowed md tasks n (s : est T R),
+  ereach f fails allowed true md (einit tasks n) s -> epc s = RDone ->
+  exists h, tasks = h ++ epend s /\ Permutation h (eran s).
+Proof. exact @edispatch_at_most_once. Qed.
+Print Assumptions C06_edispatch_at_most_once.
+
+(* (d) the run ends with the error flag set iff some executed task fails; the flag is the
+   error of an executed failing task; after the broadcast EVERY rank (root and n workers) holds
+   the root's flag: all raise it or none does *)
+Theorem C06_edispatch_error_iff :
+  forall (T R : Type) (f : T -> R) fails allowed md tasks n (s : est T R),
+  ereach f fails allowed true md (einit tasks n) s -> epc s = RDone ->
+  (eerr s <> None <-> exists t, In t (eran s) /\ fails t = true)
+  /\ (forall t, eerr s = Some t -> fails t = true /\ In t (eran s))
+  /\ eout s = repeat (eerr s) (S n).
+Proof. exact @edispatch_error_iff. Qed.
+Print Assumptions C06_edispatch_error_iff.
+
+(* what the root yielded before the end are results of distinct executed tasks *)
+Theorem C06_edispatch_yielded_sound :
+  forall (T R : Type) (f : T -> R) fails allowed md tasks n (s : est T R),
+  ereach f fails allowed true md (einit tasks n) s -> epc s = RDone ->
+  exists d, Permutation (map (job f fails) (eran s)) (map (@Ok T R) (egot s) ++ d).
+Proof. exact @edispatch_yielded_sound. Qed.
+Print Assumptions C06_edispatch_yielded_sound.
+
+(* (e) a run that ends without the error flag - in particular every run in which no task fails -
+   executed every task exactly once and the root yielded map f tasks: the error-free theorem *)
+Theorem C06_edispatch_no_error_result :
+  forall (T R : Type) (f : T -> R) fails allowed md tasks n (s : est T R),
+  ereach f fails allowed true md (einit tasks n) s -> epc s = RDone -> eerr s = None ->
+  Permutation tasks (eran s) /\ Permutation (map f tasks) (egot s).
+Proof. exact @edispatch_no_error_result. Qed.
+Print Assumptions C06_edispatch_no_error_result.
+
+Theorem C06_edispatch_no_failing_task :
+  forall (T R : Type) (f : T -> R) fails allowed md tasks n (s : est T R),
+  ereach f fails allowed true md (einit tasks n) s -> epc s = RDone ->
+  (forall t, In t tasks -> fails t = false) ->
+  eerr s = None /\ eout s = repeat None (S n) /\ Permutation tasks (eran s) /\ Permutation (map f tasks) (egot s).
+Proof. exact @edispatch_no_failing_task. Qed.
+Print Assumptions C06_edispatch_no_failing_task.
+
+(* root fallback (no worker rank in `ranks`, max_workers = 1): the run is the single-process
+   run - tasks in order, the first failing task raises, the rest is not run - then the
+   broadcast gives every rank that error *)
+Theorem C06_edispatch_root_fallback :
+  forall (T R : Type) (f : T -> R) fails allowed md tasks n (s : est T R),
+  (forall k, allowed k = false) -> ereach f fails allowed true md (einit tasks n) s -> epc s = RDone ->
+  (eran s, egot s, eerr s, epend s) = seqrun f fails [] [] tasks /\ eout s = repeat (eerr s) (S n).
+Proof. exact @edispatch_root_fallback. Qed.
+Print Assumptions C06_edispatch_root_fallback.
+
+(* (f) the pinned worker (exception escapes, nothing is sent): a reachable state in which the
+   root waits for a result that never comes and no rank can move - in both send modes
+   (finding F23 group C, repaired by 32238ed) *)
+Theorem C06_old_worker_job_error_stuck :
+  forall md, exists s : est nat nat,
+    ereach c06_f (c06_fails [11]) (c06_allowed [0; 1; 2]) false md (einit [10; 11; 12; 13] 2) s /\
+    estuck c06_f (c06_fails [11]) (c06_allowed [0; 1; 2]) false md s /\
+    epc s = RLoop 1 /\ eran s = [10; 11; 12; 13] /\ egot s = [31; 37; 40] /\ eerr s = None /\
+    Forall (fun w => einb w = [] /\ eoutb w = []) (ews s).
+Proof. exact old_worker_job_error_stuck. Qed.
+Print Assumptions C06_old_worker_job_error_stuck.
+
+(* non-vacuity: world size 3 (2 workers), tasks 10 11 12 13, the job fails on 11.  The root
+   yields 31, receives the error of 11 from worker 2, drains worker 1 (its result for 12 is
+   dropped), task 13 is never handed out, all three ranks raise the error of task 11; the
+   checker used by the harness accepts the run (code 0) in both send modes and rejects an
+   observation in which only the root raised (flag0 + flag1 = 3) *)
+Example C06_job_error_concrete :
+  c06_edispatch_case false 2 [0; 1; 2] [10; 11; 12; 13] [11]
+    [EInitTask 0; EWTask 0; EInitTask 1; EWTask 1; EInitDone; ERecvMore 0; EWTask 0; ERecvErr 1; EWEoq 1;
+     ERecvDrain 0; EWEoq 0; EExit; EBar]
+    true [31] [10; 11; 12] [Some 11; Some 11; Some 11] = 0 /\
+  c06_edispatch_case true 2 [0; 1; 2] [10; 11; 12; 13] [11]
+    [EInitTask 0; EWTask 0; EInitTask 1; EWTask 1; EInitDone; ERecvMore 0; EWTask 0; ERecvErr 1; EWEoq 1;
+     ERecvDrain 0; EWEoq 0; EExit; EBar]
+    true [31] [10; 11; 12] [Some 11; Some 11; Some 11] = 0 /\
+  c06_edispatch_case false 2 [0; 1; 2] [10; 11; 12; 13] [11]
+    [EInitTask 0; EWTask 0; EInitTask 1; EWTask 1; EInitDone; ERecvMore 0; EWTask 0; ERecvErr 1; EWEoq 1;
+     ERecvDrain 0; EWEoq 0; EExit; EBar]
+    true [31] [10; 11; 12] [Some 11; None; None] = 3.
+Proof. vm_compute. repeat split; reflexivity. Qed.
+
 (* ---- error paths: documented refusals under MPI (finding F23) ----
    a world of synchronising collectives; a rank = the list of calls it enters until it returns
    or raises (Model/MpiWrite.v, end) *)
